@@ -110,7 +110,7 @@ def r15_2(repo: Repo) -> RuleResult:
         if isinstance(st, ast.Assign) and isinstance(st.targets[0], ast.Name):
             sd_pre[st.targets[0].id] = st.value
     # the accumulator: the name augmented inside the loop
-    augs = [s for s in lp.body if isinstance(s, ast.AugAssign) and isinstance(s.op, ast.Add) and isinstance(s.target, ast.Name)]
+    augs = [s for st in lp.body for s in ast.walk(st) if isinstance(s, ast.AugAssign) and isinstance(s.op, ast.Add) and isinstance(s.target, ast.Name)]
     steps = [s for s in lp.body if isinstance(s, ast.Assign) and isinstance(s.value, ast.BinOp) and isinstance(s.value.op, ast.MatMult)]
     if len(augs) != 1 or len(steps) != 1:
         raise AnalysisError("R15.2: expected one `walk = walk @ A` and one `count += walk * w[i]` in the loop")
@@ -133,7 +133,22 @@ def r15_2(repo: Repo) -> RuleResult:
                                "the loop runs over `%s`, not range(1, %s): a walk length is skipped or a weight beyond the kernel is read" % (norm(it), f.params[-1]), lp.lineno)
     # (3) multiply before add, by A, and the weight index is the loop variable
     sv = steps[0].value
-    ok3 = lp.body.index(steps[0]) < lp.body.index(augs[0]) and {norm(sv.left), norm(sv.right)} == {walk, a} \
+    # the walk matrix must advance on *every* iteration: nothing before the step may leave the iteration early
+    early = [x for st in lp.body[: lp.body.index(steps[0])] for x in ast.walk(st) if isinstance(x, (ast.Continue, ast.Break, ast.Return))]
+    if early:
+        rr.bad(f, "walk step", "an iteration can `%s` (line %d) before `%s = %s @ %s`: the walk matrix then stays at a lower power and every later "
+               "weight is paired with walks that are too short (e.g. kernels with an interior zero weight, offset >= 2)"
+               % (type(early[0]).__name__.lower(), early[0].lineno, walk, walk, a), early[0].lineno)
+    # the add may sit under a test that its own weight is non-zero (skipping a zero term changes nothing)
+    top_of_add = [st for st in lp.body if any(x is augs[0] for x in ast.walk(st))][0]
+    if top_of_add is not augs[0]:
+        from .common import rel_of
+
+        r_ = rel_of(top_of_add.test) if isinstance(top_of_add, ast.If) and not top_of_add.orelse else None
+        wi = "%s[%s]" % (w_name, i)
+        if not (r_ and ((r_[0] == "ne" and wi in r_[1] and (r_[1] & {"0", "0.0"})) or (r_[0] == "lt" and r_[1] in ("0", "0.0") and r_[2] == wi))):
+            raise AnalysisError("R15.2: the accumulation sits under `%s`, not a non-zero test of its own weight" % short(top_of_add, 60))
+    ok3 = lp.body.index(steps[0]) < lp.body.index(top_of_add) and {norm(sv.left), norm(sv.right)} == {walk, a} \
         and isinstance(augs[0].value, ast.BinOp) and isinstance(augs[0].value.op, ast.Mult) \
         and {norm(augs[0].value.left), norm(augs[0].value.right)} == {walk, "%s[%s]" % (w_name, i)}
     (rr.ok if ok3 else rr.bad)(f, "loop body", "%s = %s @ %s, then %s += %s * %s[%s]" % (walk, walk, a, acc, walk, w_name, i) if ok3 else
